@@ -120,3 +120,12 @@ package command
 //@   requires unlockX < lockY || unlockY < lockX
 //@   ensures persX < readY || persY < readX
 //@   property C02 C07 C10 C11
+
+// C05, restart: whatever the process did before it stopped, the commander resumes from what the store holds:
+// the next log is chained on the persisted head, the next transaction id follows the last persisted transaction
+//@ func (*command.Commander).Init
+//@   requires commander != nil
+//@   ensures err == nil ==> commander.lastLog == storeHead
+//@   ensures err == nil && storeLastTx != nil ==> commander.lastTXID == storeLastTx.ID
+//@   ensures err == nil && storeLastTx == nil ==> commander.lastTXID == old(commander.lastTXID)
+//@   property C05
